@@ -9,7 +9,8 @@
      vm.rs      iter_next_impl (CopyTop + Invoke next 0), jump_if_stop_iter (class EXACTLY StopIter)
    Numbers are integers (Z): the programs of the tie only use small integers; isize wrap-around of the
    range cursor is out of reach (|end - current| decreases by one each step). *)
-From Coq Require Import List ZArith NArith Bool Arith String.
+From Coq Require Import String.
+From Coq Require Import List ZArith NArith Bool Arith.
 From Coq Require Import Strings.Byte.
 From YV Require Import Show Utf8 Index StrFns.
 Import ListNotations.
@@ -242,16 +243,6 @@ End ForProtocol.
 
 (* Iter.collect / Iter.reduce of core.yl are for loops over `self`:
    var ret = init; for v in self { ret = func(ret, v); } return ret; *)
-Definition fold_iter (fuel ofuel : nat) (g : value -> value -> value) (init : value) (st : store) (id : nat)
-  : ctl * (value * store) :=
-  for_rounds (fun m => match obj_next ofuel (snd m) id with
-                       | None => None
-                       | Some (v, st') => Some (v, (fst m, st'))
-                       end)
-             (fun m _ => m)
-             (fun m => (CNormal, m))   (* placeholder body: replaced below *)
-             0 (init, st).
-
 (* the body needs the current value: thread it through the state *)
 Definition fold_state : Type := (value * value * store)%type.   (* accumulator, loop variable, store *)
 Definition fold_loop (fuel ofuel : nat) (g : value -> value -> value) (init : value) (st : store) (id : nat)
@@ -272,5 +263,5 @@ Definition collect_loop (fuel ofuel : nat) (st : store) (id : nat) : ctl * colle
                        | Some (v, st') => Some (v, (fst m, st'))
                        end)
              (fun m v => (fst (fst m), v, snd m))
-             (fun m => (CNormal, (fst (fst m) ++ [snd (fst m)], snd (fst m), snd m)))
+             (fun m => (CNormal, ((fst (fst m) ++ [snd (fst m)])%list, snd (fst m), snd m)))
              fuel ([], VNil, st).
